@@ -30,7 +30,13 @@ pub fn synth(sig: &t::Signature, response: bool, thorough: bool) -> Result<Vec<I
     let msss: Vec<Option<u16>> = if has(&TcpOption::Mss) {
         match sig.mss {
             Some(m) => vec![Some(m)],
-            None => vec![Some(1460), Some(536), Some(1380), Some(8960)],
+            None => {
+                if thorough {
+                    vec![Some(1460), Some(536), Some(1380), Some(8960), Some(1220), Some(1400), Some(1440), Some(1452), Some(65495)]
+                } else {
+                    vec![Some(1460), Some(536), Some(1380), Some(8960)]
+                }
+            }
         }
     } else {
         vec![None]
@@ -50,9 +56,9 @@ pub fn synth(sig: &t::Signature, response: bool, thorough: bool) -> Result<Vec<I
         vec![None]
     };
     let (ittl, ds): (u8, Vec<u8>) = match sig.ittl {
-        Ttl::Value(v) => (v, if thorough { (0..=30).collect() } else { vec![0, 1, 7, 30] }),
+        Ttl::Value(v) => (v, (0..=30).collect()),
         // random-TTL form: any TTL up to the stated maximum
-        Ttl::Bad(v) => (v, if thorough { (0..v).collect() } else { vec![0, 5, 31, 40] }),
+        Ttl::Bad(v) => (v, (0..v).collect()),
         _ => return Err("ttl form".into()),
     };
     let pcs: Vec<bool> = match sig.pclass {
@@ -82,8 +88,14 @@ pub fn synth(sig: &t::Signature, response: bool, thorough: bool) -> Result<Vec<I
                                     Some(m) => vec![n as u32 * (m as u32 + min)],
                                     None => return Err("mtu* without mss".into()),
                                 },
-                                WindowSize::Mod(m) => vec![m as u32, 2 * m as u32, 3 * m as u32, 5 * m as u32],
-                                WindowSize::Any => vec![1, 5840, 8192, 65535],
+                                WindowSize::Mod(m) => (1..=if thorough { 16u32 } else { 5 }).map(|k| k * m as u32).collect(),
+                                WindowSize::Any => {
+                                    if thorough {
+                                        vec![0, 1, 1024, 4096, 5840, 8192, 14600, 29200, 32120, 65535]
+                                    } else {
+                                        vec![1, 5840, 8192, 65535]
+                                    }
+                                }
                             };
                             for w in wins {
                                 if w > 65535 {
@@ -591,9 +603,9 @@ pub fn run(thorough: bool) -> Outcome {
     http_part(&mut r);
     Outcome {
         report: r,
-        rule: "for each of the bundled TCP and HTTP signatures: every synthesised conforming packet/message (IPv4/IPv6 as allowed, hop counts {0,1,7,30} quick / 0..30 thorough, MSS alphabet, window realisations of the form, scale, every encoding of each quirk, payload class; HTTP/1.0/1.1, every subset of <=6 optional headers, software string equal to and containing the token) through the packet-level analyzers with the bundled database; distinct = distinct (table, own label, reported label) outcomes".into(),
+        rule: "for each of the bundled TCP and HTTP signatures: every synthesised conforming packet/message (IPv4/IPv6 as allowed, all hop counts 0..30, MSS alphabet, window realisations of the form, scale, every encoding of each quirk, payload class; HTTP/1.0/1.1, every subset of <=6 optional headers, software string equal to and containing the token) through the packet-level analyzers with the bundled database; distinct = distinct (table, own label, reported label) outcomes".into(),
         exhaustive: true,
-        bounds: json!({"hop_counts": if thorough {"0..=30"} else {"0,1,7,30"}}),
+        bounds: json!({"hop_counts": "0..=30 (random-TTL form: every TTL up to the maximum)", "mss_alphabet": if thorough {9} else {4}}),
     }
 }
 
